@@ -116,7 +116,9 @@ def pick_cfgs(rng: random.Random, n: int) -> List[Dict[str, Any]]:
                 # hyper-parameters that select a Python branch of the library: the class of the constraint (identity / selection / mean on
                 # possibly traced values), mult == 1, max_norm, groups, cross-attention shapes, 1-D matmul operands
                 {"__default__": "default", None: "none"}.get(c.get("constraint", "__default__"), "mean" if str(c.get("constraint")).endswith("mean") else "select"),
-                c.get("mult", 1.0) == 1.0, c.get("max_norm") is None, c.get("groups", 1) > 1, "seq_kv" in c, c.get("vec"))
+                c.get("mult", 1.0) == 1.0, c.get("max_norm") is None, c.get("groups", 1) > 1, "seq_kv" in c, c.get("vec"),
+                # add: how a one-element operand is spelt (0-dimensional, or rank >= 1 with one element)
+                tuple(sorted("rank0" if sh == [] else "one_elem" if all(d == 1 for d in sh) else "many" for sh in (c.get("sa"), c.get("sb")) if sh is not None)) if c["op"] == "add" else None)
     groups: Dict[Any, List[Dict[str, Any]]] = {}
     for c in allc:
         groups.setdefault(variant(c), []).append(c)
